@@ -430,12 +430,14 @@ def words_of(body, call_sym, edge_sym=None, stmt_sym=None, start=0, stops=(), ke
                     vis.extend(x)
                 elif x is not None:
                     vis.append(x)
-            if inline is not None and subj[0] == "discr" and labs:
+            norig_ = getattr(body, "orig_nblocks", None)
+            if (inline is not None or norig_ is not None) and subj[0] == "discr" and labs:
                 key = strip_identity(subj[1])
                 if not any(y[0] in ("phi", "unknown", "cycle", "undef", "partial") for y in walk(key)):
                     # remember which variants this edge admits for this subject: tests of the same subject in an inlined
                     # helper and in its caller are correlated (contradictions dropped, implied re-tests made silent)
-                    out.append(("\x00dtest", key, frozenset(labs), _depth, tuple(vis)))
+                    side_ = _depth if norig_ is None else (_depth * 2 + (1 if a >= norig_ else 0))
+                    out.append(("\x00dtest", key, frozenset(labs), side_, tuple(vis)))
                     cache_e[(a, b)] = out
                     return out
             out.extend(vis)
